@@ -30,6 +30,7 @@ LEVEL_TEXT = (
     "concentrations, substance-only species, rules, function definitions, rule-defined stoichiometry, initial-"
     "assignment chains) are written and read as well. Sessions: two round trips in one process under related file "
     "names (same path, same stem elsewhere, stems differing in punctuation or case)."
+    " Also: rate laws in several signature variants, comparison chains whose branches differ at the boundary, exactly-zero coefficients, and components named like the importer's or the emitter's own helpers."
 )
 LEVEL_NOTE = "trusted: libsbml and the third-party pysbml parser; helper components added by the importer (compartment, <species>_amount) are ignored; only the original's names are compared"
 RULE = (
